@@ -20,15 +20,16 @@ Example sie_former_witness_ok :
             sie_abs h = spec_of [0] [(0, [[1]; [0]]); (2, [[0]; [0]; [1]]); (4, [[0]])].
 Proof. eexists. split; vm_compute; reflexivity. Qed.
 
-(* ------------------------------------------------------------ gd_seek in read mode, then gd_putdata (open finding)
-   A read-mode gd_seek beyond the last record leaves the file position there; the write that follows at exactly that
-   position takes the "already there" shortcut of _GD_SampIndSeek, so no padding record is made and the write's first
-   record swallows the gap: the gap reads back as the value of the previous last run. *)
-Definition sie_seek_then_put_refines (zero : sample) : Prop :=
+(* ------------------------------------------------------------ gd_seek in read mode, then gd_putdata
+   A read-mode gd_seek beyond the last record leaves the file position there.  With the unguarded shortcut (the code
+   before repo commit a110f5b) the write that follows at exactly that position was "already there", no padding record
+   was made and the write's first record swallowed the gap.  Kept as history, for the old variant only. *)
+Definition sie_seek_then_put_refines (guarded : bool) (zero : sample) : Prop :=
   forall hist x data h, Forall (fun w => 0 <= fst w) hist -> 0 <= x -> sie_run zero hist = Some h ->
-    exists h', sie_put zero x data (sie_seek zero false x h) = Some h' /\ sie_abs h' = array_write zero (sie_abs h) (Z.to_nat x) data.
+    exists h', sie_put_v guarded zero x data (sie_seek_v guarded zero false x h) = Some h' /\
+               sie_abs h' = array_write zero (sie_abs h) (Z.to_nat x) data.
 
-Lemma sie_seek_then_put_refuted : ~ sie_seek_then_put_refines [0].
+Lemma sie_seek_then_put_refuted_before_a110f5b : ~ sie_seek_then_put_refines false [0].
 Proof.
   intros H.
   assert (R : sie_run [0] [(0, [[5]; [5]; [5]])] = Some (mkSie [(2, [5])] 1 0 3 2 (2, [5]) (0, [0]) false true 3))
@@ -37,9 +38,10 @@ Proof.
   vm_compute in P. injection P as <-. vm_compute in A. discriminate A.
 Qed.
 
-(* the same history with the repaired shortcut (proposed_fixes/C03-6.diff) *)
-Example sie_seek_then_put_witness_repaired :
-  exists h', sie_put_fx [0] 6 [[7]] (sie_seek_fx [0] false 6 (sie_open [0] [(2, [5])])) = Some h' /\ sie_abs h' = [[5]; [5]; [5]; [0]; [0]; [0]; [7]].
+(* the same history with the guarded shortcut *)
+Example sie_seek_then_put_witness_ok :
+  exists h', sie_put_v true [0] 6 [[7]] (sie_seek_v true [0] false 6 (sie_open [0] [(2, [5])])) = Some h' /\
+             sie_abs h' = [[5]; [5]; [5]; [0]; [0]; [0]; [7]].
 Proof. eexists. split; vm_compute; reflexivity. Qed.
 
 (* ------------------------------------------------------------ the in-core compression loop of _GD_SampIndWrite *)
